@@ -1,6 +1,7 @@
 package oracle
 
 import (
+	"encoding/json"
 	"fmt"
 	"sort"
 	"strconv"
@@ -158,6 +159,39 @@ func checkC16(run *Run, res *Result) {
 			if kind, ok := v.pending[e.Off.Seq]; ok && !inAck[k] {
 				delete(v.pending, e.Off.Seq)
 				v.finished[kind]++
+			}
+		case journal.KAPI:
+			// the state endpoint: GET /states/offset lists exactly the tracked positions of the session in effect
+			if !strings.HasPrefix(e.S, "GET /states/offset") || e.I != 200 || !strings.HasPrefix(e.S2, "{") || !open[e.M] || closing[e.M] {
+				continue
+			}
+			var body map[string]struct {
+				SeqNo      uint64
+				StartSeqNo uint64
+				EndSeqNo   uint64
+			}
+			if err := json.Unmarshal([]byte(e.S2), &body); err != nil {
+				continue
+			}
+			res.probe("offsets-api-judged")
+			var vbs []int
+			for s := range body {
+				if vb, err := strconv.Atoi(s); err == nil {
+					vbs = append(vbs, vb)
+				}
+			}
+			sort.Ints(vbs)
+			for _, vb := range vbs {
+				o := body[strconv.Itoa(vb)]
+				if len(assigned[e.M]) > 0 && !assigned[e.M][vb] {
+					res.violate("C16", "R1-offsets-api", e.N, fmt.Sprintf("vb=%d", vb), "member %d: GET /states/offset lists vb %d, which is not in the member's assigned range", e.M, vb)
+					continue
+				}
+				if v := st[vbKey{e.M, vb}]; v != nil && v.have && !inAck[vbKey{e.M, vb}] {
+					if o.SeqNo != v.off.seq {
+						res.violate("C16", "R1-offsets-api", e.N, fmt.Sprintf("vb=%d", vb), "member %d vb %d: GET /states/offset says seqNo %d, tracked position is %d", e.M, vb, o.SeqNo, v.off.seq)
+					}
+				}
 			}
 		case journal.KScrape:
 			c := calls[e.M]
